@@ -683,7 +683,7 @@ fn main()
             op_gate(&mut out, &sc, "H", &[q]);
         }
         })).is_ok();
-        out.case("stream random-tableaux", if ok { "ok" } else { "panic" });
+        out.case("stream random-tableaux (marker: this generator stream of the harness ran to its end without a panic in the code under test)", if ok { "ok" } else { "panic" });
     }
 
     // 5. random Clifford circuits with measurements and resets
@@ -692,14 +692,14 @@ fn main()
     {
         let n = rng.range(5, 8) as usize;
         let ok = std::panic::catch_unwind(std::panic::AssertUnwindSafe(|| circuits(&mut out, &mut rng, n, 40))).is_ok();
-        out.case("stream circuits", if ok { "ok" } else { "panic" });
+        out.case("stream circuits (marker: this generator stream of the harness ran to its end without a panic in the code under test)", if ok { "ok" } else { "panic" });
     }
     let nwide = if deep { 6 } else { 1 };
     for _ in 0..nwide
     {
         let n = rng.range(65, 68) as usize;
         let ok = std::panic::catch_unwind(std::panic::AssertUnwindSafe(|| circuits(&mut out, &mut rng, n, 25))).is_ok();
-        out.case("stream wide-circuits", if ok { "ok" } else { "panic" });
+        out.case("stream wide-circuits (marker: this generator stream of the harness ran to its end without a panic in the code under test)", if ok { "ok" } else { "panic" });
     }
 
     // 6. Clifford-only combinator gates (Composite via add_gate and from_string, Kron, Loop, nesting) through apply_gate
@@ -787,7 +787,7 @@ fn main()
         }
         op_norm(&mut out, &text(&t2));
         })).is_ok();
-        out.case("stream word-boundaries", if ok { "ok" } else { "panic" });
+        out.case("stream word-boundaries (marker: this generator stream of the harness ran to its end without a panic in the code under test)", if ok { "ok" } else { "panic" });
     }
 
     // 9. circuit level: the automatic choice of representation against an explicit vector run, same seed
